@@ -87,27 +87,32 @@ def rules(ctx, db):
                    "lands behind the first one and the writable region shrinks as it is filled", g)
     # ---------------- R2
     sl = "compio_buf::slice::Slice"
-    for nm, q in (("end_or_len", r"buf_len$"), ("end_or_cap", r"buf_capacity$")):
-        fs = db.methods(self_adt="^" + sl + "$", name=nm, trait="")
+    from ..util import deep_deps
+    n2 = 0
+    for nm, bound in (("deref", r"buf_len$"), ("deref_mut", r"buf_len$"), ("as_uninit", r"buf_capacity$")):
+        fs = [f for f in db.fns.values() if f.impl and f.impl.get("self_adt") == sl and f.short == nm]
         if not fs:
             ctx.missing("R2", "Slice::" + nm)
         for f in fs:
-            mn = calls(f, r"core::cmp::Ord::min$")
-            ok = False
-            for bb, t in mn:
-                for i in (0, 1):
-                    if any(call_matches(x, q) for x in arg_origin_calls(f, t, i)):
-                        ok = True
-            ctx.ob("R2", "clamped:" + nm, ok, "the view's end is clamped to the inner buffer's %s" % q.rstrip("$"), f)
-    for nm, helper in (("deref", "initialized_range"), ("deref_mut", "initialized_range"), ("as_uninit", "range")):
-        fs = [f for f in db.fns.values() if f.impl and f.impl.get("self_adt") == sl and f.short == nm]
-        for f in fs:
             idx = calls(f, r"core::ops::index::Index(Mut)?::index(_mut)?$")
             ok = bool(idx)
+            why = "indexes the inner buffer"
             for bb, t in idx:
-                if not any(call_matches(x, r"Slice::<T>::%s$" % helper) for x in arg_origin_calls(f, t, 1)):
+                pl = op_place(t["args"][1])
+                if pl is None:
                     ok = False
-            ctx.ob("R2", "indexes-with-clamped-range:" + nm, ok, "Slice::%s indexes the inner buffer with the clamped range from %s()" % (nm, helper), f)
+                    continue
+                names, fields = deep_deps(db, f, pl["l"])
+                has_min = any(re.search(r"core::cmp::(Ord::)?min$", n) for n in names)
+                has_bound = any(re.search(bound, n) for n in names)
+                if not (has_min and has_bound and "begin" in fields):
+                    ok = False
+                    why = "range deps: min=%s bound(%s)=%s begin=%s" % (has_min, bound.rstrip("$"), has_bound, "begin" in fields)
+            n2 += 1
+            ctx.ob("R2", "indexes-with-clamped-range:" + nm, ok,
+                   "Slice::%s indexes the inner buffer with begin..min(end, %s) — the range is computed in the accessor or in "
+                   "private helpers (%s)" % (nm, bound.rstrip("$"), why), f)
+    ctx.floor("R2", "Slice accessors that index the inner buffer", n2, 3)
     br = "compio_driver::buffer_pool::BufferRef"
     if br in db.adts:
         for nm, fld, bound in (("set_len", "len", "cap"), ("set_capacity", "cap", "full_cap")):
